@@ -406,6 +406,8 @@ def compare_hist(go, model, compare_class=False):
         if gs[0] == "bad":
             return f"implementation {gs[1]}", 0
         return f"implementation returned {json.dumps(go)[:200]}", 0
+    if "retained_changed" in go:
+        return f"the bytes returned by Output call #{go['retained_changed']} changed after a later call (returned memory is reused)", 0
     if "res" not in (model or {}):
         return f"MODEL-PROBLEM {json.dumps(model)[:200]}", 0
     unm = 0
